@@ -756,9 +756,10 @@ def generate():
             index.append(("gp_" + tag, ["px", "py", "pz", "vx", "vy", "vz"], []))
     finally:
         P.restore()
-    out.append("/-- every generated definition with its parameter names (documentation; the Lean proofs use named arguments) -/")
+    out.append("/-- every generated definition with its parameter names, sorted by name (PV/Equiv/Sgp4.lean pins the names, so that a new"
+               " stage cannot go unnoticed; the proofs apply the definitions with named arguments) -/")
     out.append("def index : List (String × List String) := [")
-    out.append(",\n".join('  ("%s", [%s])' % (n, ", ".join('"%s"' % a for a in nums + modes)) for n, nums, modes in index))
+    out.append(",\n".join('  ("%s", [%s])' % (n, ", ".join('"%s"' % a for a in nums + modes)) for n, nums, modes in sorted(index)))
     out.append("]")
     out.append("")
     out.append("end PV.Gen.KS")
